@@ -220,7 +220,8 @@ def emit(gram, minlen, atomic, out_path, pest_path):
         f.write("\n".join(lines) + "\n")
 
 
-def main(pest_path="/repo/crates/tx3-lang/src/tx3.pest", out_path=None):
+def main(pest_path=None, out_path=None):
+    pest_path = pest_path or os.path.join(os.environ.get("TX3_REPO", "/repo"), "crates/tx3-lang/src/tx3.pest")
     out_path = out_path or os.path.join(os.path.dirname(os.path.dirname(os.path.abspath(__file__))), "spec", "Grammar.tla")
     gram, minlen, atomic = translate(pest_path)
     emit(gram, minlen, atomic, out_path, pest_path)
